@@ -242,9 +242,31 @@ class DistinctCountCheck(AbstractCheck):
 
         # Build and test Python expression for validation.
         self._expression = DistinctCountCheck._COUNT_NAME + rule[column_where_field_name_ends:]
+        self._validate_names_in_expression()
         self._distinct_value_to_count_map = None
         self.reset()
         self._eval()
+
+    def _validate_names_in_expression(self):
+        """
+        Validate that the only name `self._expression` refers to is the count.
+        Other names would be evaluated only once a part of the expression
+        using them is reached, which might be as late as after reading all the
+        data.
+        """
+        try:
+            names_in_expression = compile(self._expression, "<rule>", "eval").co_names
+        except Exception as message:
+            raise errors.InterfaceError(
+                "cannot evaluate count expression %r: %s" % (self._expression, message), self.location_of_rule
+            )
+        unknown_names = [name for name in names_in_expression if name != DistinctCountCheck._COUNT_NAME]
+        if unknown_names:
+            raise errors.InterfaceError(
+                "count expression %r must only refer to the field to count but also contains: %s"
+                % (self._expression, _tools.human_readable_list(unknown_names, "and")),
+                self.location_of_rule,
+            )
 
     def reset(self):
         self._distinct_value_to_count_map = {}
